@@ -45,6 +45,7 @@ type Fault struct {
 // Scenario is a complete run description.
 type Scenario struct {
 	Seed     uint64 `json:"seed"`
+	Mode     string `json:"mode,omitempty"` // "" = db-level engine; "store" = real Store.Snapshot stratum (C06)
 	PageSize int    `json:"page_size"`
 	Cache    int    `json:"cache,omitempty"`   // PRAGMA cache_size (pages) on the write connection; 0 = SQLite default
 	BusyMs   int    `json:"busy_ms"`           // checkpoint busy timeout
@@ -188,7 +189,7 @@ func (e *Engine) indexSQL(t int) string {
 // Close ends readers and closes everything.
 func (e *Engine) Close() {
 	for i := range e.readers {
-		e.endReader(i)
+		e.EndReader(i)
 		if r := e.readers[i]; r != nil && r.pool != nil {
 			r.pool.Close()
 		}
@@ -241,9 +242,9 @@ func (e *Engine) Step(op *Op) {
 			e.H.AfterWrite(e, op)
 		}
 	case "rs":
-		e.startReader(op.I)
+		e.StartReader(op.I)
 	case "re":
-		e.endReader(op.I)
+		e.EndReader(op.I)
 	case "ck":
 		e.Attempt()
 	case "full":
@@ -358,10 +359,10 @@ func errStr(err error) string {
 
 // ---------------------------------------------------------------- readers
 
-// startReader opens a read transaction on its own connection (same driver and
+// StartReader opens a read transaction on its own connection (same driver and
 // DSN form as rqlite's read-only pool) and touches the database so that SQLite
-// takes a read mark which it then holds until endReader.
-func (e *Engine) startReader(i int) {
+// takes a read mark which it then holds until EndReader.
+func (e *Engine) StartReader(i int) {
 	if i < 0 || i >= NReaders {
 		return
 	}
@@ -403,7 +404,7 @@ func (e *Engine) startReader(i int) {
 	e.C.Log.Add("op%d rs %d objects=%d", e.OpIdx, i, n)
 }
 
-func (e *Engine) endReader(i int) {
+func (e *Engine) EndReader(i int) {
 	if i < 0 || i >= NReaders {
 		return
 	}
@@ -432,7 +433,7 @@ func (e *Engine) ActiveReaders() int {
 // EndAllReaders releases every read mark.
 func (e *Engine) EndAllReaders() {
 	for i := range e.readers {
-		e.endReader(i)
+		e.EndReader(i)
 	}
 }
 
